@@ -385,6 +385,99 @@ impl QVisitor for PathV<'_> {
                     o.extend(a);
                 }
             }
+            9 => {
+                // query_many_mut and View::get_many_mut on three probe handles (rotation by arg; arg >= 1000
+                // repeats the first handle: assert_distinct must panic)
+                let hs = self.handles;
+                if hs.len() < 3 {
+                    o.push(7);
+                } else {
+                    let k = (self.arg as usize) % hs.len();
+                    let rot: Vec<Entity> = hs[k..].iter().chain(hs[..k].iter()).copied().collect();
+                    let tri = if self.arg >= 1000 { [rot[0], rot[1], rot[0]] } else { [rot[0], rot[1], rot[2]] };
+                    let flags = &mut *self.flags;
+                    let r = std::panic::catch_unwind(std::panic::AssertUnwindSafe(|| {
+                        let mut a = Vec::new();
+                        for r in w.query_many_mut::<Q, 3>(tri) {
+                            match r {
+                                Err(QueryOneError::NoSuchEntity) => a.push(0),
+                                Err(QueryOneError::Unsatisfied) => a.push(1),
+                                Ok(i) => {
+                                    a.push(2);
+                                    i.enc(&mut a);
+                                }
+                            }
+                        }
+                        a
+                    }));
+                    let r2 = std::panic::catch_unwind(std::panic::AssertUnwindSafe(|| {
+                        let mut a = Vec::new();
+                        let mut v = w.view_mut::<Q>();
+                        for r in v.get_many_mut(tri) {
+                            match r {
+                                None => a.push(0),
+                                Some(i) => {
+                                    a.push(1);
+                                    i.enc(&mut a);
+                                }
+                            }
+                        }
+                        a
+                    }));
+                    let r3 = std::panic::catch_unwind(std::panic::AssertUnwindSafe(|| {
+                        let mut a = Vec::new();
+                        let mut qm = w.query_mut::<Q>();
+                        let mut v = qm.view();
+                        for r in v.get_many_mut(tri) {
+                            match r {
+                                None => a.push(0),
+                                Some(i) => {
+                                    a.push(1);
+                                    i.enc(&mut a);
+                                }
+                            }
+                        }
+                        a
+                    }));
+                    match (r, r2, r3) {
+                        (Ok(a), Ok(b), Ok(c)) => {
+                            if b != c {
+                                flags.push("C08: view_mut().get_many_mut and query_mut().view().get_many_mut disagree".to_string());
+                            }
+                            o.push(1);
+                            o.extend(a);
+                            o.extend(b);
+                        }
+                        (Err(_), Err(_), Err(_)) => o.push(3),
+                        _ => {
+                            flags.push("C08: query_many_mut and View::get_many_mut disagree about rejecting the handle list".to_string());
+                            o.push(4);
+                        }
+                    }
+                }
+            }
+            10 => {
+                let bs = self.arg as u32;
+                let mut batches = Vec::new();
+                for batch in w.query_mut::<Q>().into_iter_batched(bs) {
+                    let mut n = 0u64;
+                    let mut body = Vec::new();
+                    for (e, i) in batch {
+                        enc_pair(e, &i, &mut body);
+                        n += 1;
+                    }
+                    batches.push((n, body));
+                    if batches.len() > 100_000 {
+                        self.flags.push("C08: batched iteration does not terminate".to_string());
+                        break;
+                    }
+                }
+                o.push(batches.len() as u64);
+                for (n, body) in batches {
+                    o.push(n);
+                    o.extend(body);
+                }
+            }
             _ => {
                 // satisfies for every handle, Archetype::access / satisfies for every archetype
                 for h in self.handles {
